@@ -19,6 +19,7 @@ func init() {
 	commands["hdr-rec"] = cmdHdrRec
 	commands["hdr-probe"] = cmdHdrProbe
 	commands["hdr-stat"] = cmdHdrStat
+	commands["hdr-ops"] = cmdHdrOps
 	commands["hdr-merge"] = cmdHdrMerge
 	commands["hdr-import"] = cmdHdrImport
 	commands["hdr-window"] = cmdHdrWindow
@@ -461,6 +462,75 @@ func cmdHdrMerge(o *Out, line string, f []string) {
 	}
 }
 
+// hdr-ops <min> <max> <sig> | ops: c<v>:<ei> RecordCorrectedValue, n<v>:<k> RecordValues(v, k), r<v> RecordValue, z Reset.
+// Oracle: a twin histogram is driven with single RecordValue calls only - the explicit list of values each operation
+// stands for - and must be Equal at the end (and after every operation the totals agree).
+func cmdHdrOps(o *Out, line string, f []string) {
+	sec := sections(f)
+	mn, mx, s := atoi64(sec[0][0]), atoi64(sec[0][1]), int(atoi64(sec[0][2]))
+	h := hdrhist.New(mn, mx, s)
+	twin := hdrhist.New(mn, mx, s)
+	var res []string
+	two := func(x string) (int64, int64) {
+		c := strings.IndexByte(x, ':')
+		return atoi64(x[:c]), atoi64(x[c+1:])
+	}
+	for _, op := range sec[1] {
+		switch op[0] {
+		case 'z':
+			h.Reset()
+			twin = hdrhist.New(mn, mx, s)
+			res = append(res, "z")
+		case 'r':
+			v := atoi64(op[1:])
+			err := h.RecordValue(v)
+			if err == nil {
+				_ = twin.RecordValue(v)
+			}
+			res = append(res, map[bool]string{true: "o", false: "e"}[err == nil])
+		case 'n':
+			v, k := two(op[1:])
+			err := h.RecordValues(v, k)
+			if err == nil {
+				for i := int64(0); i < k; i++ {
+					_ = twin.RecordValue(v)
+				}
+			}
+			res = append(res, map[bool]string{true: "o", false: "e"}[err == nil])
+		case 'c':
+			v, ei := two(op[1:])
+			err := h.RecordCorrectedValue(v, ei)
+			// what the call stands for: v, and for a stall every v - k*ei >= ei; recording stops at the first refused value
+			if twin.RecordValue(v) == nil && ei > 0 && v > ei {
+				for m := v - ei; m >= ei; m -= ei {
+					if twin.RecordValue(m) != nil {
+						break
+					}
+				}
+			}
+			res = append(res, map[bool]string{true: "o", false: "e"}[err == nil])
+		}
+		if h.TotalCount() != twin.TotalCount() {
+			o.violation(line, "after this operation the total count differs from recording the same values one by one",
+				map[string]interface{}{"op": op, "total": h.TotalCount(), "one_by_one": twin.TotalCount()})
+			break
+		}
+	}
+	o.emit(line, fmt.Sprintf("%s %s", strings.Join(res, " "), histCfgLine(h)))
+	o.nontrivial(line)
+	o.count("hdr-ops")
+	if !h.Equals(twin) {
+		o.violation(line, "the histogram differs from one in which the same values were recorded one by one", nil)
+	}
+	var dsum int64
+	for _, b := range h.Distribution() {
+		dsum += b.Count
+	}
+	if dsum != h.TotalCount() {
+		o.violation(line, "TotalCount differs from the sum of the Distribution bars", map[string]int64{"total": h.TotalCount(), "bars": dsum})
+	}
+}
+
 func cmdHdrImport(o *Out, line string, f []string) {
 	sec := sections(f)
 	mn, mx, s := atoi64(sec[0][0]), atoi64(sec[0][1]), int(atoi64(sec[0][2]))
@@ -619,6 +689,14 @@ func hdrStat(o *Out, rng *rand.Rand, thorough bool, _ []string) {
 		if rng.Intn(2) == 0 {
 			mx += int64(rng.Intn(100))
 		}
+		if i%8 == 5 {
+			// large configurations: values whose sub-bucket shifts do not fit 32 bits
+			mx = int64(1)<<uint(31+rng.Intn(10)) + int64(rng.Intn(1000))
+			if mn > 8 {
+				mn = 1
+			}
+			s = 1 // one significant figure keeps the counts array (and the model's walk over it) small
+		}
 		n := rng.Intn(60)
 		if thorough && rng.Intn(10) == 0 {
 			n = rng.Intn(3000)
@@ -669,6 +747,43 @@ func hdrStat(o *Out, rng *rand.Rand, thorough bool, _ []string) {
 			run(o, fmt.Sprintf("hdr-merge %d %d %d | %s | %d %d %d | %s", mnA, mxA, sA, joinInts(vs[:cut]), mn, mx, s, joinInts(vs[cut:])))
 		}
 		run(o, fmt.Sprintf("hdr-import %d %d %d | %s", mn, mx, s, joinInts(vs)))
+		// RecordCorrectedValue (stalls of up to 400 intervals, intervals below / at / above the unit, zero and negative
+		// intervals), RecordValues with counts, Reset in between
+		{
+			var ops []string
+			unit := int64(1)
+			for unit*2 <= mn {
+				unit *= 2
+			}
+			for k := 0; k < 1+rng.Intn(6); k++ {
+				switch rng.Intn(8) {
+				case 0:
+					ops = append(ops, "z")
+				case 1:
+					ops = append(ops, fmt.Sprintf("r%d", rng.Int63n(mx+mx/4+2)-1))
+				case 2:
+					ops = append(ops, fmt.Sprintf("n%d:%d", rng.Int63n(mx+mx/8+2), rng.Intn(6)))
+				default:
+					v := rng.Int63n(mx + mx/8 + 2)
+					var ei int64
+					switch rng.Intn(6) {
+					case 0:
+						ei = int64(rng.Intn(3)) - 1 // -1, 0, 1
+					case 1:
+						ei = 1 + rng.Int63n(unit) // at most the unit
+					case 2:
+						ei = unit + rng.Int63n(unit+1)
+					default:
+						ei = 1 + rng.Int63n(v+2)
+					}
+					if ei > 0 && v/ei > 400 {
+						ei = v/400 + 1
+					}
+					ops = append(ops, fmt.Sprintf("c%d:%d", v, ei))
+				}
+			}
+			run(o, fmt.Sprintf("hdr-ops %d %d %d | %s", mn, mx, s, strings.Join(ops, " ")))
+		}
 	}
 	nw := 150
 	if thorough {
